@@ -32,6 +32,8 @@ deriving Repr
 inductive SOp where
   | sd (d : Nat) (tag : Tag) | sa (t : Time) (tag : Tag) | ut (tag : Tag) | u1 | pt (tag : Tag) | rs | emit (v : Int)
   | throw
+  /-- `graph.schedule_node(<node with this label in the same graph>, now)` from inside an evaluation -/
+  | kick (lbl : String)
 deriving Repr
 
 inductive Kind where
@@ -217,6 +219,12 @@ def runSOps (p : CProg) (inst idx : Nat) (now : Time) (started : Bool) :
     | .rs => runSOps p inst idx now started rest (s.setNode inst idx { s.node inst idx with ns := reset ns }) e
     | .emit v => runSOps p inst idx now started rest s (some v)
     | .throw => (s, e, true)
+    | .kick l =>
+      let n := (p.inst inst).nodes.length
+      let s' := match (List.range n).find? (fun j => (p.node inst j).lbl == l) with
+        | some j => schedAbs p (depthFuel p) s inst j now
+        | none => s
+      runSOps p inst idx now started rest s' e
 
 def hasScheduler : Kind → Bool
   | .src _ | .script _ | .probe => true
